@@ -1,6 +1,7 @@
 package props
 
 import (
+	"math"
 	"bufio"
 	"bytes"
 	"context"
@@ -164,6 +165,54 @@ func TestC10Worker(t *testing.T) {
 		}
 	}
 	marker("END builtins")
+	// arguments at and beyond the sizes where 16-bit quantities wrap: arrays,
+	// strings and hashes of 65535-70000 entries, numbers at the ends of their
+	// types (whatever a function does only for large inputs happens here)
+	marker("BEGIN large")
+	{
+		bigArr := make([]interface{}, 70000)
+		bigInts := make([]int, 65537)
+		for i := range bigArr {
+			bigArr[i] = fmt.Sprintf("/tmp/c10-probe-file-%d", 70000-i)
+		}
+		for i := range bigInts {
+			bigInts[i] = 65537 - i
+		}
+		bigMap := map[string]interface{}{}
+		for i := 0; i < 66000; i++ {
+			bigMap[fmt.Sprintf("k%d", i)] = i
+		}
+		all := map[string]interface{}{"BigArr": bigArr, "BigInts": bigInts, "BigStr": strings.Repeat("/etc/passwd ", 6000), "BigMap": bigMap,
+			"MaxInt": int64(math.MaxInt64), "MinInt": int64(math.MinInt64), "Huge": 1e308, "Tiny": 5e-324}
+		// only the fields a call names travel with it (every run converts its whole object)
+		only := func(names ...string) map[string]interface{} {
+			o := map[string]interface{}{}
+			for _, n := range names {
+				if v, ok := all[n]; ok {
+					o[n] = v
+				}
+			}
+			return o
+		}
+		bigArgs := []string{"BigArr", "BigInts", "BigStr", "BigMap", "MaxInt", "1..65536"}
+		for _, fn := range names {
+			if fn == "print" || fn == "printf" {
+				continue // megabytes to /dev/null, thousands of write calls to attribute: covered with small arguments
+			}
+			marker("CALL large " + fn)
+			for _, a := range bigArgs {
+				run("return type("+fn+"("+a+"));", nil, only(a))
+			}
+			for _, a := range []string{"BigArr", "BigStr"} {
+				for _, b := range []string{"true", "\"/\""} {
+					run("return type("+fn+"("+a+", "+b+"));", nil, only(a, b))
+				}
+			}
+			run("return type("+fn+"(BigStr, /passwd/, \"/tmp/c10-probe-file\"));", nil, only("BigStr"))
+			run("return type("+fn+"(MaxInt, MinInt, Huge));", nil, only("MaxInt", "MinInt", "Huge"))
+		}
+	}
+	marker("END large")
 	// the time functions under several zones
 	marker("BEGIN zones")
 	for _, tz := range []string{"UTC", "Europe/Helsinki", "America/New_York", "Asia/Kolkata", "Nowhere/Invalid", "/etc/passwd", "../../etc/passwd", ""} {
@@ -364,7 +413,10 @@ func straceWorker(outdir string) (string, error) {
 	logf := filepath.Join(outdir, fmt.Sprintf("c10.strace.%s.log", shard()))
 	cmd := exec.Command("strace", "-f", "-qq", "-y", "-s", "200", "-e", "trace=%file,%network,%process,write,pwrite64,writev", "-o", logf,
 		os.Args[0], "-test.run", "^TestC10Worker$", "-test.timeout", "900s")
-	cmd.Env = append(os.Environ(), "VERIF_C10_WORKER=1", "VERIF_C10_KEYS="+logf+".keys")
+	// asyncpreemptoff: the Go run time interrupts long computations with a
+	// signal every 10 ms; under ptrace each of them costs a stop, and a sort of
+	// 70000 elements drowns in them
+	cmd.Env = append(os.Environ(), "VERIF_C10_WORKER=1", "VERIF_C10_KEYS="+logf+".keys", "GODEBUG=asyncpreemptoff=1")
 	var buf bytes.Buffer
 	cmd.Stdout, cmd.Stderr = &buf, &buf
 	if err := cmd.Run(); err != nil {
